@@ -254,7 +254,35 @@ func (a *Aff) fnTag(v ssa.Value) string {
 	return "pkg"
 }
 
+// trivialPhi: a phi all of whose operands (other than itself) are one value denotes that value.
+func trivialPhi(v ssa.Value) ssa.Value {
+	for i := 0; i < 8; i++ {
+		phi, ok := v.(*ssa.Phi)
+		if !ok {
+			return v
+		}
+		var only ssa.Value
+		same := true
+		for _, e := range phi.Edges {
+			if e == ssa.Value(phi) {
+				continue
+			}
+			if only == nil {
+				only = e
+			} else if e != only {
+				same = false
+			}
+		}
+		if !same || only == nil {
+			return v
+		}
+		v = only
+	}
+	return v
+}
+
 func (a *Aff) sym(v ssa.Value) string {
+	v = trivialPhi(v)
 	if a.Equate != nil {
 		v = a.Equate(v)
 	}
@@ -273,6 +301,7 @@ func (a *Aff) sym(v ssa.Value) string {
 }
 
 func (a *Aff) lenSym(v ssa.Value) string {
+	v = trivialPhi(v)
 	if a.Equate != nil {
 		v = a.Equate(v)
 	}
@@ -301,6 +330,7 @@ func isInteger(t types.Type) bool {
 
 // LenOf returns the linear form of len(v) for a slice/string/array value.
 func (a *Aff) LenOf(v ssa.Value) *Lin {
+	v = trivialPhi(v)
 	switch x := v.(type) {
 	case *ssa.Const:
 		if x.Value == nil {
@@ -371,6 +401,7 @@ func (a *Aff) Lin(v ssa.Value) *Lin {
 }
 
 func (a *Aff) lin(v ssa.Value) *Lin {
+	v = trivialPhi(v)
 	if k, ok := v.(*ssa.Const); ok {
 		if i, ok := constInt(k); ok {
 			return LinConst(i)
@@ -622,6 +653,14 @@ func (a *Aff) FactsAt(b *ssa.BasicBlock) []Con {
 				if s == b && edgeDominates(d, b, b) {
 					out = append(out, a.condCons(ifi.Cond, k == 0)...)
 					out = append(out, a.ensuresFacts(ifi.Cond, k == 0)...)
+					// flag threading (see dominatingFactsD)
+					if src := phiBoolSource(ifi.Cond, k == 0, d); src != nil && src != b {
+						out = append(out, a.FactsAt(src)...)
+						if sif, ok := lastInstr(src).(*ssa.If); ok && len(src.Succs) == 2 && src.Succs[0] != src.Succs[1] {
+							out = append(out, a.condCons(sif.Cond, src.Succs[0] == d)...)
+							out = append(out, a.ensuresFacts(sif.Cond, src.Succs[0] == d)...)
+						}
+					}
 				}
 			}
 		}
